@@ -3,7 +3,7 @@
 // extracted function (indexing views, pooling, reductions, accumulations, parameterised ufuncs, concatenate, ...),
 // with NON-default attribute values chosen so that a default would give another shape or other elements.
 //
-// case line:  attr S:<name> A:<a> A:<b> L:<params> L:<expected shape>
+// case line:  attr S:<name> A:<a> A:<b> L:<params> L:<expected shape> S:<f64|int>
 //   -> reproduces <shape>                       when apply(get_function_composition(v), get_function_operands(v)) has the
 //                                                shape AND every element of the view v (compared on the printed %.17g form)
 //   -> differs view <view> | apply <result>     otherwise
@@ -52,6 +52,7 @@
 #include "nmtools/array/view/where.hpp"
 #include "nmtools/array/view/concatenate.hpp"
 #include "show.hpp"
+#include <cstring>
 
 namespace fn = nmtools::functional;
 namespace view = nmtools::view;
@@ -71,9 +72,16 @@ static std::string handle(const Case& c) {
     if (c.op != "attr") return "unsupported";
     const std::string name = c.args[0].raw.substr(2);
     auto a = make_array(c.args[1]); auto b = make_array(c.args[2]);
-    auto ad = make_array<dyn_t<double>>(c.args[1]); auto bd = make_array<dyn_t<double>>(c.args[2]);
+    // double operands travel as their 64-bit patterns (S:f64): values that are NOT representable in binary32
+    const bool f64 = c.args.size() > 5 && c.args[5].raw == "S:f64";
+    auto mkd = [&](const Arg& g) {
+        auto arr = make_array<dyn_t<double>>(g);
+        if (f64) { double* p = nm::data(arr); for (size_t i = 0; i < g.list.size(); i++) std::memcpy(&p[i], &g.list[i], sizeof(double)); }
+        return arr;
+    };
+    auto ad = mkd(c.args[1]); auto bd = mkd(c.args[2]);
     const auto& P = c.args[3].list;
-    auto q = [&](size_t k) { return (double)P.at(k) / 4.0; };        // activation parameters travel in quarters
+    auto q = [&](size_t k) { return (double)P.at(k) / 10.0; };       // activation parameters travel in tenths: not exact in binary32
     using i2 = std::array<size_t, 2>;
 #define X(nm_, expr) if (name == nm_) return attr_case(expr);
     // ---- indexing views (functional/indexing.hpp: the whole indexer, i.e. every argument, is the attribute)
